@@ -276,8 +276,9 @@ fn run_sink(t: &[&str]) -> String {
 // ------------------------------------------------------------------------------ writer faults
 
 /// drive a writer over `sink`; Ok(()) iff every API call including finish/close returned Ok.
-/// `after_err` collects what a second `finish` returns after the first error.
-fn drive_writer(writer: &str, inp: &Input, spec: &str, sink: FaultSink, notes: &mut Vec<String>) -> Result<(), ArrowError> {
+/// After ANY error the caller "cleans up": finish / finish / into_inner are called again and every
+/// one of them that reports success is recorded in `out.later_ok`.
+fn drive_writer(writer: &str, inp: &Input, spec: &str, sink: FaultSink, out: &mut Outcome) -> Result<(), ArrowError> {
     macro_rules! ipc {
         ($ctor:expr) => {{
             let mut w = $ctor?;
@@ -291,10 +292,16 @@ fn drive_writer(writer: &str, inp: &Input, spec: &str, sink: FaultSink, notes: &
             if res.is_ok() {
                 res = w.finish();
             }
-            if res.is_err() && sink.failed() {
-                // the sink is dead: a later finish must not claim success
+            if res.is_err() {
+                out.accepted_at_error = Some(sink.data().len());
                 if w.finish().is_ok() {
-                    notes.push("finish-ok-after-error".into());
+                    out.later_ok.push("finish#1".into());
+                }
+                if w.finish().is_ok() {
+                    out.later_ok.push("finish#2".into());
+                }
+                if w.into_inner().is_ok() {
+                    out.later_ok.push("into_inner".into());
                 }
             }
             sink.mark_done();
@@ -324,16 +331,18 @@ fn drive_writer(writer: &str, inp: &Input, spec: &str, sink: FaultSink, notes: &
                     break;
                 }
             }
-            sink.mark_done();
-            if res.is_err() && sink.failed() {
-                // `Writer::into_inner` after a failed write on a dead sink
+            if res.is_err() {
+                out.accepted_at_error = Some(sink.data().len());
+                // `Writer::into_inner` after a failed write (it flushes again and unwraps)
                 let r = std::panic::catch_unwind(std::panic::AssertUnwindSafe(move || {
                     let _ = w.into_inner();
                 }));
-                if r.is_err() {
-                    notes.push("kf:csv-into-inner-panic".into());
+                match r {
+                    Err(_) => out.notes.push("kf:csv-into-inner-panic".into()),
+                    Ok(()) => out.later_ok.push("into_inner".into()),
                 }
             }
+            sink.mark_done();
             res
         }
         "json" | "jsona" => {
@@ -341,8 +350,7 @@ fn drive_writer(writer: &str, inp: &Input, spec: &str, sink: FaultSink, notes: &
                 mut w: arrow_json::Writer<FaultSink, F>,
                 inp: &Input,
                 sink: &FaultSink,
-                check_finish: bool,
-                notes: &mut Vec<String>,
+                out: &mut Outcome,
             ) -> Result<(), ArrowError> {
                 let mut res = Ok(());
                 for b in &inp.batches {
@@ -354,17 +362,22 @@ fn drive_writer(writer: &str, inp: &Input, spec: &str, sink: FaultSink, notes: &
                 if res.is_ok() {
                     res = w.finish();
                 }
-                // the array format still has to write `]`: finish on a dead sink must fail
-                if res.is_err() && sink.failed() && check_finish && w.finish().is_ok() {
-                    notes.push("finish-ok-after-error".into());
+                if res.is_err() {
+                    out.accepted_at_error = Some(sink.data().len());
+                    if w.finish().is_ok() {
+                        out.later_ok.push("finish#1".into());
+                    }
+                    if w.finish().is_ok() {
+                        out.later_ok.push("finish#2".into());
+                    }
                 }
                 sink.mark_done();
                 res
             }
             if writer == "json" {
-                go(arrow_json::LineDelimitedWriter::new(sink.clone()), inp, &sink, false, notes)
+                go(arrow_json::LineDelimitedWriter::new(sink.clone()), inp, &sink, out)
             } else {
-                go(arrow_json::ArrayWriter::new(sink.clone()), inp, &sink, true, notes)
+                go(arrow_json::ArrayWriter::new(sink.clone()), inp, &sink, out)
             }
         }
         _ => panic!("unknown writer {writer}"),
@@ -382,8 +395,8 @@ fn writer_schemas(writer: &str) -> &'static [usize] {
 fn fault_free(writer: &str, spec: &str) -> (Vec<u8>, Vec<String>) {
     let inp = input(spec, false);
     let sink = FaultSink::new(vec![], false);
-    let mut notes = vec![];
-    drive_writer(writer, &inp, spec, sink.clone(), &mut notes).expect("fault-free write");
+    let mut out = Outcome::default();
+    drive_writer(writer, &inp, spec, sink.clone(), &mut out).expect("fault-free write");
     (sink.data(), sink.trace())
 }
 
@@ -395,12 +408,32 @@ fn run_wfault(t: &[&str], fails: &mut Fails) -> String {
     }
     let inp = input(spec, false);
     let sink = FaultSink::new(parse_sched(sched), true);
-    let mut notes = vec![];
-    let res = drive_writer(writer, &inp, spec, sink.clone(), &mut notes);
+    let mut out = Outcome::default();
+    let res = drive_writer(writer, &inp, spec, sink.clone(), &mut out);
     let data = sink.data();
-    if !is_prefix(&data, &good) {
-        fails.push(("not-a-prefix".into(), format!("sink holds {} bytes that are not a prefix of the fault-free output", data.len())));
+    let accepted = out.accepted_at_error.unwrap_or(data.len());
+    if !is_prefix(&data[..accepted.min(data.len())], &good) {
+        fails.push(("not-a-prefix".into(), format!("sink holds {accepted} bytes that are not a prefix of the fault-free output")));
     }
+    // retry after error: no later finish / into_inner may report success unless the sink ended up
+    // holding exactly the complete fault-free output
+    if !out.later_ok.is_empty() && data != good {
+        let family = match writer {
+            "sw" | "swl" | "swb" | "fw" | "fwb" => "ipc",
+            "csv" => "csv",
+            _ => "json",
+        };
+        fails.push((
+            format!("kf:{family}-ok-after-failed-write"),
+            format!(
+                "{} returned Ok after an earlier call had failed, but the sink holds {} bytes that are not the fault-free output ({} bytes)",
+                out.later_ok.join("+"),
+                data.len(),
+                good.len()
+            ),
+        ));
+    }
+    let notes = out.notes;
     if res.is_ok() && data != good {
         fails.push((
             "ok-but-incomplete".into(),
@@ -416,7 +449,7 @@ fn run_wfault(t: &[&str], fails: &mut Fails) -> String {
             fails.push(("ok-but-unreadable".into(), why));
         }
     }
-    format!("accepted={} res={}", data.len(), if res.is_ok() { "ok" } else { "err" })
+    format!("accepted={accepted} res={}", if res.is_ok() { "ok" } else { "err" })
 }
 
 /// read what a writer left in the sink with the matching real reader; None = same rows as written
